@@ -70,6 +70,27 @@ def build_harness():
     log(f'[build] harness built in {time.time() - t0:.1f}s')
 
 
+_built_debug = False
+
+
+def build_harness_debug():
+    """An UNOPTIMISED build of the harness and of the crate (what `cargo test` / a debug build of a user runs): no inlining,
+    no tail-call elimination, overflow checks on.  Used for the children that parse inside a small fixed stack (C03)."""
+    global _built_debug
+    path = os.path.join(HARNESS, 'target', 'debug', 'jsv')
+    if _built_debug:
+        return path
+    t0 = time.time()
+    env = dict(os.environ, CARGO_NET_OFFLINE='true')
+    p = subprocess.run(['cargo', 'build', '--offline', '--quiet'], cwd=HARNESS, env=env, stdout=subprocess.PIPE, stderr=subprocess.PIPE, text=True)
+    if p.returncode != 0 or not os.path.exists(path):
+        errs = [l for l in p.stderr.splitlines() if l.startswith('error') or '-->' in l][:40]
+        raise ToolError('cargo build (debug profile) of the harness failed:\n' + '\n'.join(errs or p.stderr.splitlines()[-40:]))
+    _built_debug = True
+    log(f'[build] harness (debug profile) built in {time.time() - t0:.1f}s')
+    return path
+
+
 def jsv(args, timeout=3600, stdin=None, seed_offset=0):
     """Run a harness subcommand; returns the parsed SUMMARY record."""
     build_harness()
